@@ -1,17 +1,22 @@
 #!/bin/sh
-# Builds every monitor (plain and race flavour) from files on disk only, so
-# that later checks start from a warm build cache.
+# Builds every claimed monitor (plain or race flavour, as its check uses it)
+# from files on disk only, so that later checks start from a warm build cache.
 export GOFLAGS=-mod=mod GOPROXY=off GOSUMDB=off GOTOOLCHAIN=local
 cd "$(dirname "$0")/harness" || exit 1
-go test -tags 'test verif' -vet=off -count=1 -run '^$' ./... >/dev/null 2>&1 || go test -tags 'test verif' -vet=off -count=1 -run '^$' ./... || exit 1
-RACE=$(python3 - <<'PY'
+PLAIN=$(python3 -c "
 import json
-c=json.load(open('../checks.json'))['checks']
-import os
-print(' '.join('./'+k.lower() for k in sorted(c) if c[k]['race'] and os.path.isdir(k.lower())))
-PY
-)
-if [ -n "$RACE" ]; then
-  go test -race -tags 'test verif' -vet=off -count=1 -run '^$' $RACE >/dev/null 2>&1 || go test -race -tags 'test verif' -vet=off -count=1 -run '^$' $RACE || exit 1
+m=json.load(open('../MANIFEST.json')); c=json.load(open('../checks.json'))['checks']
+print(' '.join('./'+x['property_id'].lower() for x in m['checks'] if not c[x['property_id']]['race']))")
+RACE=$(python3 -c "
+import json
+m=json.load(open('../MANIFEST.json')); c=json.load(open('../checks.json'))['checks']
+print(' '.join('./'+x['property_id'].lower() for x in m['checks'] if c[x['property_id']]['race']))")
+rc=0
+if [ -n "$PLAIN" ]; then
+  go test -tags 'test verif' -vet=off -count=1 -run '^$' $PLAIN || rc=1
 fi
-echo setup ok
+if [ -n "$RACE" ]; then
+  go test -race -tags 'test verif' -vet=off -count=1 -run '^$' $RACE || rc=1
+fi
+[ $rc = 0 ] && echo setup ok
+exit $rc
